@@ -133,7 +133,9 @@ type convResult struct {
 // runConv plays one conversation: each write is sent, then the harness waits until `expect[i]` replies
 // (known from the harness-side specification) have arrived before the next write, so that read boundaries
 // are deterministic. A wait that times out is not an error here: the shortfall shows in the result.
-func runConv(writes [][]byte, expect []int) (res convResult) { return runConvOpt(writes, expect, false) }
+func runConv(writes [][]byte, expect []int) (res convResult) {
+	return runConvOpt(writes, expect, false)
+}
 
 // runConvOpt with race=true sends all writes back to back (no waiting in between) while the write callback
 // is slow, so that the reader goroutine runs ahead of the writer; replies are collected at the end.
